@@ -97,12 +97,7 @@ func (l Line) render(stream int) []byte {
 		return nil
 	}
 	var b bytes.Buffer
-	if stream == 1 {
-		b.WriteByte('o')
-	} else {
-		b.WriteByte('e')
-	}
-	x := l.Seed*2654435761 + 12345
+	x := l.Seed*2654435761 + 12345 + uint32(stream)*977
 	next := func() uint32 { x ^= x << 13; x ^= x >> 17; x ^= x << 5; return x }
 	for b.Len() < l.Len {
 		switch l.Kind {
@@ -515,19 +510,26 @@ func check(t ev.T, test string, c Case) {
 		if len(lines) > 0 && lines[len(lines)-1] == "" {
 			lines = lines[:len(lines)-1]
 		}
-		a, b := 0, 0
+		// reachable[a] after k lines: a lines of standard output and k-a lines of standard error have been matched
+		reach := map[int]bool{0: true}
 		for k, l := range lines {
-			switch {
-			case a < len(wantOut) && l == wantOut[a] && (b >= len(wantErr) || l != wantErr[b] || strings.HasPrefix(l, "o") || strings.HasPrefix(l, "VERIF_C18_")):
-				a++
-			case b < len(wantErr) && l == wantErr[b]:
-				b++
-			default:
+			next := map[int]bool{}
+			for a := range reach {
+				b := k - a
+				if a < len(wantOut) && l == wantOut[a] {
+					next[a+1] = true
+				}
+				if b < len(wantErr) && l == wantErr[b] {
+					next[a] = true
+				}
+			}
+			if len(next) == 0 {
 				ev.Fail(t, prop, test, c, "Output(): line %d of the returned text is neither the next line of standard output nor of standard error: %s", k, clip(l))
 			}
+			reach = next
 		}
-		if a != len(wantOut) || b != len(wantErr) {
-			ev.Fail(t, prop, test, c, "Output() returned %d/%d lines of standard output and %d/%d lines of standard error", a, len(wantOut), b, len(wantErr))
+		if len(lines) != len(wantOut)+len(wantErr) || !reach[len(wantOut)] {
+			ev.Fail(t, prop, test, c, "Output() returned %d lines; the child wrote %d lines of standard output and %d of standard error", len(lines), len(wantOut), len(wantErr))
 		}
 	}
 	cls := "clean-writes"
